@@ -116,31 +116,50 @@ private theorem braceProduct_nobraces : ∀ w : BWord, hasBraces w = false →
       have hr : hasBraces r = false := by simpa [hasBraces] using h
       simp [braceProduct, ih hr]
 
-/-- decidable guard of the partial theorem: IFS is non-empty, and if the word has brace expressions then IFS holds
-a space and no generated word is empty (clauses `star_joined_with_space_when_ifs_empty`,
-`brace_alternatives_joined_with_space`, `empty_brace_alternative_kept`) -/
+/-- decidable guard of the partial theorem: IFS is non-empty; every generated word has the same tilde-prefix for
+brush and bash; and if the word has brace expressions then IFS holds a space, no generated word is empty, and only
+the first generated word has a tilde-prefix (clauses `star_joined_with_space_when_ifs_empty`,
+`brace_alternatives_joined_with_space`, `empty_brace_alternative_kept`,
+`tilde_after_brace_alternative_not_expanded`) -/
 def InDomain (env : Env) (w : BWord) : Prop :=
-  env.ifsStr ≠ [] ∧ (hasBraces w = true → ' ' ∈ env.ifsStr ∧ ∀ x ∈ braceProduct w, x ≠ [])
+  env.ifsStr ≠ [] ∧
+  (∀ x ∈ braceProduct w, tildeFix tildeTermsBrush x = tildeFix tildeTermsBash x) ∧
+  (hasBraces w = true → ' ' ∈ env.ifsStr ∧ (∀ x ∈ braceProduct w, x ≠ []) ∧ laterWordsOk (braceProduct w))
 
 instance (env : Env) (w : BWord) : Decidable (InDomain env w) := by unfold InDomain; infer_instance
 
+private theorem all_ne_nil_iff (l : List Word) : (∀ x ∈ l, x ≠ []) ↔ [] ∉ l :=
+  ⟨fun h hm => h _ hm rfl, fun h x hx hxe => h (hxe ▸ hx)⟩
+
+/-- the driver's report `domainFlags` is empty exactly inside the guard -/
+theorem domainFlags_nil_iff (env : Env) (w : BWord) : domainFlags env w = [] ↔ InDomain env w := by
+  unfold domainFlags InDomain
+  by_cases h1 : env.ifsStr = [] <;> by_cases h2 : hasBraces w = true <;>
+    by_cases h3 : ' ' ∈ env.ifsStr <;> by_cases h4 : [] ∉ braceProduct w <;>
+    by_cases h5 : (∀ x ∈ braceProduct w, tildeFix tildeTermsBrush x = tildeFix tildeTermsBash x) <;>
+    by_cases h6 : laterWordsOk (braceProduct w) <;> simp [all_ne_nil_iff, h1, h2, h3, h4, h5, h6]
+
 /-- **word_expansion_refines_spec_partial**: inside the guard, brush's word expansion (brace alternatives joined
-with a space and re-read as one word, then parameter/command/arithmetic expansion, coalescing, field splitting,
-pathname expansion) yields exactly the argument list of the reference semantics (brace expansion first, every
-generated word expanded separately) — for every word, environment, option set and directory. -/
+with a space and re-read as one word — tilde-prefix only at its start —, then parameter/command/arithmetic
+expansion, coalescing, field splitting, pathname expansion) yields exactly the argument list of the reference
+semantics (brace expansion first, every generated word expanded separately, each with its own tilde-prefix) — for
+every word, environment, option set and directory. -/
 theorem word_expansion_refines_spec_partial (env : Env) (opts : Opts) (names : List Str) (w : BWord)
     (hd : InDomain env w) :
     fullExpandB env opts names w = specExpandB env opts names w := by
-  obtain ⟨hi, hbr⟩ := hd
+  obtain ⟨hi, hterm, hbr⟩ := hd
   have hfe : fullExpand { env with bashStarJoin := true } opts names = fullExpand env opts names :=
     funext (fullExpand_spec_env env opts names hi)
   simp only [fullExpandB, specExpandB, hfe]
   cases hb : hasBraces w with
   | false =>
-    simp only [braceJoin, hb, braceProduct_nobraces w hb, List.map_cons, List.map_nil, Bool.false_eq_true, ↓reduceIte]
-    exact (seqAppend_single _).symm
+    have hx := hterm _ (by rw [braceProduct_nobraces w hb]; exact List.mem_singleton.mpr rfl)
+    simp only [braceJoin, braceJoinRaw, hb, braceProduct_nobraces w hb, List.map_cons, List.map_nil, Bool.false_eq_true,
+      ↓reduceIte]
+    rw [seqAppend_single]
+    exact congrArg (fullExpand env opts names) hx
   | true =>
-    obtain ⟨hsp, hne⟩ := hbr hb
+    obtain ⟨hsp, hne, hlater⟩ := hbr hb
     have hmap : (braceProduct w).map (fun x => if x.isEmpty then [WP.dq []] else x) = braceProduct w := by
       have hid : ∀ x ∈ braceProduct w, (fun x : Word => if x.isEmpty then [WP.dq []] else x) x = id x := by
         intro x hx
@@ -149,10 +168,25 @@ theorem word_expansion_refines_spec_partial (env : Env) (opts : Opts) (names : L
         | nil => exact absurd rfl this
         | cons a r => rfl
       rw [List.map_congr_left hid, List.map_id]
-    simp only [braceJoin, hb, ↓reduceIte, hmap]
+    simp only [braceJoin, braceJoinRaw, hb, ↓reduceIte, hmap]
     cases hp : braceProduct w with
-    | nil => simp [fullExpand, basicExpand, coalesce, splitFields, splitGo, globFields, seqAppend]
-    | cons x r => exact fullExpand_joined env opts names hsp r x
+    | nil => simp [tildeFix, fullExpand, basicExpand, coalesce, splitFields, splitGo, globFields, seqAppend]
+    | cons x r =>
+      rw [hp] at hlater hne hterm
+      obtain ⟨hx1, hr⟩ := hlater
+      have hjoin : tildeFix tildeTermsBrush (x ++ r.flatMap fun y => WP.plain (.base (.text [' '])) :: y) =
+          tildeFix tildeTermsBash x ++
+            (r.map (tildeFix tildeTermsBash)).flatMap fun y => WP.plain (.base (.text [' '])) :: y := by
+        rw [tildeFix_append _ _ _ (hne x (by simp)) hx1, untildeAll_joined, hterm x (by simp), List.flatMap_map]
+        congr 1
+        rw [List.flatMap_def, List.flatMap_def]
+        congr 1
+        apply List.map_congr_left
+        intro y hy
+        rw [hr y hy]
+      simp only [hjoin]
+      rw [fullExpand_joined env opts names hsp]
+      simp [List.map_map, Function.comp_def]
 
 example : InDomain { vars := [("s".toList, " a  b ".toList)] }
     [.braces [[.plain (.base (.param (.named "s".toList)))], [.dq [.base (.text "*".toList)]]],
@@ -165,6 +199,39 @@ example : fullExpandB { vars := [("s".toList, " a  b ".toList)] } {} ["a".toList
     [.braces [[.plain (.base (.param (.named "s".toList)))], [.dq [.base (.text "*".toList)]]],
      .piece (.plain (.base (.text "c".toList)))] :=
   word_expansion_refines_spec_partial _ _ _ _ (by decide)
+
+/-- the guard's tilde conjunct is needed: `HOME=/hh; set -- ~/b{x,y}` gives `/hh/bx ~/by` in brush (the joined
+text `~/bx ~/by` has only one word start), `/hh/bx /hh/by` in bash — with the default IFS and no empty word -/
+theorem tilde_after_brace_cex :
+    fullExpandB { home := "/hh".toList } {} []
+      [.piece (.plain (.base .tilde)), .piece (.plain (.base (.text "/b".toList))),
+       .braces [[.plain (.base (.text "x".toList))], [.plain (.base (.text "y".toList))]]]
+      = some ["/hh/bx".toList, "~/by".toList] ∧
+    specExpandB { home := "/hh".toList } {} []
+      [.piece (.plain (.base .tilde)), .piece (.plain (.base (.text "/b".toList))),
+       .braces [[.plain (.base (.text "x".toList))], [.plain (.base (.text "y".toList))]]]
+      = some ["/hh/bx".toList, "/hh/by".toList] := by
+  decide
+
+/-- and a brace alternative that is `~` alone is not expanded even in first position (`{~,a}`: a space follows it) -/
+theorem tilde_alone_in_brace_cex :
+    fullExpandB { home := "/hh".toList } {} []
+      [.braces [[.plain (.base .tilde)], [.plain (.base (.text "a".toList))]]] = some ["~".toList, "a".toList] ∧
+    specExpandB { home := "/hh".toList } {} []
+      [.braces [[.plain (.base .tilde)], [.plain (.base (.text "a".toList))]]] = some ["/hh".toList, "a".toList] := by
+  decide
+
+/-- inside the guard: a tilde-prefix in front of a brace expression whose alternatives follow a `/` … is outside;
+a tilde-prefix word without braces, and a brace word whose first alternative only carries the prefix, are inside -/
+example : InDomain { home := " /x ".toList }
+    [.piece (.plain (.base .tilde)), .piece (.plain (.base (.text "/a*".toList)))] := by decide
+
+example : InDomain {}
+    [.braces [[.plain (.base .tilde), .plain (.base (.text "/x".toList))], [.plain (.base (.text "y".toList))]]] := by decide
+
+example : ¬ InDomain { home := "/hh".toList }
+    [.piece (.plain (.base .tilde)), .piece (.plain (.base (.text "/b".toList))),
+     .braces [[.plain (.base (.text "x".toList))], [.plain (.base (.text "y".toList))]]] := by decide
 
 /-- coalescing adjacent pieces is associative: how a word is cut into groups of pieces does not matter -/
 theorem coalesce_assoc (a b c : List Expansion) :
